@@ -6,7 +6,12 @@ every operand position of operators, literal constructors, indexers, method call
 a representative set of library functions, including every short-circuit function
 (and/or/?./switch/switchCase/selectCase/selectAllCases/examine/coalesce) and user functions with 1-6
 overloads.  The real evaluation log is compared with the trace predicted by the evaluation-order
-reference (`Yaql.EvalOrder.trace`, and its plain-Python transcription `py_trace` kept here)."""
+reference (`Yaql.EvalOrder.trace`, and its plain-Python transcription `py_trace` kept here).
+
+Per-element lambdas (last clause): pipelines of streaming operators with the same probe expressions INSIDE their
+lambdas, lazy pipelines as second collection of join / zip / concat, consumed completely or partly; the real log
+must equal the log of a lazy plain-Python transcription (`RefEval`: each lambda once per element consumed, in
+order, none for elements never consumed) and of `Yaql.PerElem` (the model the per_element theorems are about)."""
 import json
 
 import common
@@ -20,14 +25,21 @@ P = 'Yaql.Props.C11.'
 REQUIRED_THEOREMS = [P + n for n in (
     'eager_once_in_order', 'log_independent_of_candidates', 'eager_fragment_trace', 'short_circuit_and',
     'short_circuit_or', 'short_circuit_elvis', 'short_circuit_switch', 'short_circuit_switch_none',
-    'short_circuit_selectCase', 'short_circuit_coalesce', 'short_circuit_switchCase', 'all_cases_trace')] + [
+    'short_circuit_selectCase', 'short_circuit_coalesce', 'short_circuit_switchCase', 'all_cases_trace',
+    'runFrom_log', 'runOn_log', 'per_element_total', 'per_element_own', 'per_element', 'per_element_own_firstK',
+    'take_log', 'take_zero_log', 'take_short_log', 'simple_select', 'simple_filter', 'simple_takeWhile', 'simple_skipWhile',
+    'applies_selectMany', 'applies_search', 'search_consumed', 'applies_each', 'applies_accumulate', 'applies_zip',
+    'concat_log', 'joinRows_events', 'join_pass_events', 'join_empty_outer')] + [
     'Yaql.Props.C11Gen.lazy_params', 'Yaql.Props.C11Gen.lazy_functions']
 TRUSTED = ['the expression generator and its bookkeeping of operand values (taken from separate real evaluations of the '
            'sub-expressions)', 'harness/gens/registry.py']
 ASSUMPTIONS = ['selectAllCases / examine return lazy iterators (documented); the generator consumes them on the spot with '
                '.toList(), which is the point at which the model places their operands',
                'probes cannot raise; expressions whose evaluation raises are regenerated',
-               'per-element lambdas of the query functions (select/where/..) are covered by C14, not here']
+               'per-element part: sources are list literals of <= 5 integers, <= 4 stages; the values of lambda bodies on elements '
+               'and the flags of short-circuit operators inside them come from separate real evaluations of the body on the '
+               'element; pipelines in which a lambda raises on some element are regenerated',
+               'orderBy: only the bound "at most once per element" is checked (the order in which keys are taken is left open)']
 
 
 def generate():
@@ -62,6 +74,8 @@ class Bad(Exception):
 
 
 class Gen:
+    deferred = False        # LamGen: flags are left as {'$f': kind, 't': text} and filled in per element
+
     def __init__(self, rng, ctx, max_depth):
         self.rng, self.ctx, self.max_depth = rng, ctx, max_depth
         self.n = 0
@@ -106,7 +120,14 @@ class Gen:
         return fmt.format(*[p[0] for p in parts]), dict(k='eager', ks=[p[1] for p in parts])
 
     def truthy(self, text):
+        if self.deferred:
+            return {'$f': 'truthy', 't': text}
         return bool(self.value(text))
+
+    def isnull(self, text):
+        if self.deferred:
+            return {'$f': 'null', 't': text}
+        return self.value(text) is None
 
     def p_I(self):
         e = self.eager
@@ -207,10 +228,10 @@ class Gen:
     def switch_case(self, d):
         c, xc = self.expr('I', d)
         args = [self.expr('I', d) for _ in range(self.rng.choice([1, 2, 3]))]
-        v = self.value(c)
-        if not isinstance(v, int) or isinstance(v, bool):
-            raise Bad('switchCase on %r' % (v,))
-        sel = v if 0 <= v < len(args) else len(args) - 1
+        if self.deferred:
+            sel = {'$f': 'sel', 't': c, 'n': len(args)}
+        else:
+            sel = switch_sel(self.value(c), len(args))
         return '%s.switchCase(%s)' % (c, ', '.join(a[0] for a in args)), dict(
             k='switchCase', c=xc, sel=sel, **{'as': [a[1] for a in args]})
 
@@ -221,13 +242,19 @@ class Gen:
         else:
             args = [self.expr('N', d) for _ in range(self.rng.choice([1, 2]))] + [self.expr(last, d)]
         return 'coalesce(%s)' % ', '.join(a[0] for a in args), dict(
-            k='coalesce', nulls=[self.value(a[0]) is None for a in args], **{'as': [a[1] for a in args]})
+            k='coalesce', nulls=[self.isnull(a[0]) for a in args], **{'as': [a[1] for a in args]})
 
     def map_literal(self, d):
         ks = [self.tick("'k%d'" % i, dict(k='leaf')) for i in range(2)]
         vs = [self.expr('A', d) for _ in range(2)]
         text = '{%s}.keys().toList()' % ', '.join('%s => %s' % (k[0], v[0]) for k, v in zip(ks, vs))
         return text, dict(k='eager', ks=[ks[0][1], vs[0][1], ks[1][1], vs[1][1]])
+
+
+def switch_sel(v, nargs):
+    if not isinstance(v, int) or isinstance(v, bool):
+        raise Bad('switchCase on %r' % (v,))
+    return v if 0 <= v < nargs else nargs - 1
 
 
 def py_trace(x):
@@ -282,6 +309,630 @@ def real_log(text, ctx):
     return list(LOG), None
 
 
+# ------------------------------------------------------------------ per-element lambdas of streaming operators
+#
+# A pipeline  <list literal>.op1(..).op2(..)...  whose per-element lambdas carry numbered probes (the same ids fire
+# once per application), whose collection arguments may be lazy pipelines themselves (join's second collection,
+# zip, concat) and whose result is consumed completely or only partly (.take(k), .first(), .any(), .indexWhere()..).
+# Three logs:  real (the yaql under test),  reference (RefEval: plain-Python lazy transcription of the documented
+# evaluation order: each lambda once per element consumed, in order, none for elements never consumed),
+# model (Yaql.PerElem via the driver, from a table of per-element facts built eagerly by `Describe`).
+
+import itertools
+import functools
+
+STMT = {}
+
+
+def ev(text, ctx, env):
+    """value of `text` with the variables `env` ({'$': v} / {'$1': a, '$2': b}); probes fired on the way are dropped"""
+    st = STMT.get(text)
+    if st is None:
+        st = STMT[text] = ENGINE(text)
+    c = ctx.create_child_context()
+    for k, v in env.items():
+        c[k] = v
+    try:
+        return st.evaluate(context=c)
+    except Exception as e:
+        raise Bad('%s on %r: %r' % (text, env, e))
+    finally:
+        del LOG[:]
+
+
+def freeze(v):
+    return tuple(freeze(x) for x in v) if isinstance(v, (list, tuple)) else v
+
+
+def inst(x, f):
+    """the X of a lambda body with its flags filled in by f"""
+    if isinstance(x, dict):
+        if '$f' in x:
+            return f(x)
+        return {k: inst(v, f) for k, v in x.items()}
+    if isinstance(x, list):
+        return [inst(v, f) for v in x]
+    return x
+
+
+def flagval(fl, ctx, env):
+    v = ev(fl['t'], ctx, env)
+    if fl['$f'] == 'truthy':
+        return bool(v)
+    if fl['$f'] == 'null':
+        return v is None
+    return switch_sel(v, fl['n'])
+
+
+class LamGen(Gen):
+    """bodies of per-element lambdas: the leaves may mention the element"""
+    deferred = True
+    var = '$'
+
+    def leaf(self, ty):
+        r, v = self.rng, self.var
+        if ty == 'I' and r.random() < 0.65:
+            c = r.choice([v, v, '%s + 1' % v, '%s * 2' % v, '%s mod 3' % v, '%s - 1' % v])
+            return self.tick(c, dict(k='leaf'))
+        if ty == 'B' and r.random() < 0.75:
+            c = r.choice(['%s > %d' % (v, r.choice([0, 1, 2, 3, 5])), '%s mod 2 = %d' % (v, r.choice([0, 1])),
+                          '%s < %d' % (v, r.choice([2, 4, 8])), '%s = %d' % (v, r.choice([1, 2, 3]))])
+            return self.tick(c, dict(k='leaf'))
+        if ty in ('A', 'N') and r.random() < 0.4:
+            return self.tick(v, dict(k='leaf'))
+        return Gen.leaf(self, ty)
+
+    def p_N(self):
+        return [p for p in Gen.p_N(self) if p[0] != 'elvis']
+
+    def body(self, ty, var, depth):
+        """-> {'text', 'x' (flags deferred), 'vars'}; `var`: how the lambda refers to the (integer) element"""
+        self.var = var
+        text, x = self.expr(ty, depth)
+        if '$' not in text:                  # keep it a function of the element
+            t2, x2 = self.tick(var, dict(k='leaf'))
+            if ty == 'B':
+                text, x = '(%s and %s > %d)' % (text, t2, self.rng.choice([0, 1, 2])), dict(
+                    k='and', a=x, b=x2, t={'$f': 'truthy', 't': text})
+            else:
+                text, x = '[%s, %s][1]' % (text, t2), dict(k='eager', ks=[x, x2])
+        return dict(text=text, x=x)
+
+
+PE_LAMBDA_OPS = ['select', 'where', 'takeWhile', 'skipWhile', 'selectMany', 'distinct', 'accumulate']
+PE_PLAIN_OPS = ['take', 'skip', 'memorize', 'enumerate']
+PE_SECOND_OPS = ['join', 'zip', 'concat']
+PE_TERMINALS = ['any', 'all', 'indexWhere', 'first', 'len', 'toDict', 'aggregate', 'lastIndexWhere', 'anyNoPred', 'groupBy']
+
+
+class PipeGen:
+    def __init__(self, rng, ctx, depth):
+        self.rng, self.g = rng, LamGen(rng, ctx, depth)
+        self.depth = depth
+        self.ops = set()
+
+    def body(self, ty, var, two=False):
+        b = self.g.body(ty, var, self.rng.randrange(0, self.depth + 1))
+        b['vars'] = ['$1', '$2'] if two else ['$']
+        return b
+
+    def source(self):
+        r = self.rng
+        vals = [r.choice([0, 1, 2, 3, 4, 5, 7]) for _ in range(r.choice([0, 1, 2, 3, 3, 4, 5]))]
+        src = dict(vals=vals, ids=None)
+        if r.random() < 0.3:
+            src['ids'] = []
+            for _ in vals:
+                self.g.n += 1
+                src['ids'].append(self.g.n)
+        return src
+
+    def pipe(self, nstages, allow_second=True, terminal_ok=False):
+        """-> pipeline spec; the elements handed on are integers except behind zip / enumerate (pairs)"""
+        r = self.rng
+        p = dict(src=self.source(), stages=[])
+        var = '$'
+        for i in range(nstages):
+            last = i == nstages - 1
+            pool = PE_LAMBDA_OPS * 3 + PE_PLAIN_OPS + (PE_SECOND_OPS * 2 if allow_second else [])
+            if last and terminal_ok and r.random() < 0.55:
+                pool = PE_TERMINALS
+            op = r.choice(pool)
+            st = dict(op=op)
+            self.ops.add(op)
+            if op in ('select', 'selectMany'):
+                st['body'] = self.body('I', var)
+                if op == 'selectMany' and r.random() < 0.6:
+                    b2 = self.body('I', var)
+                    st['body'] = dict(text='[%s, %s]' % (st['body']['text'], b2['text']),
+                                      x=dict(k='eager', ks=[st['body']['x'], b2['x']]), vars=['$'])
+                var = '$'
+            elif op in ('where', 'takeWhile', 'skipWhile', 'any', 'all', 'indexWhere', 'lastIndexWhere'):
+                st['body'] = self.body('B', var)
+            elif op in ('distinct', 'groupBy'):
+                st['body'] = self.body('I', var)
+            elif op == 'toDict':
+                st['body'], st['body2'] = self.body('I', var), self.body('A', var)
+            elif op in ('accumulate', 'aggregate'):
+                if var != '$':
+                    st = dict(op='memorize')
+                else:
+                    st['body'] = self.body('I', r.choice(['$1', '$2']), two=True)
+                    if '$1' not in st['body']['text'] or '$2' not in st['body']['text']:
+                        o = '$2' if '$1' in st['body']['text'] else '$1'
+                        st['body'] = dict(text='(%s + %s)' % (st['body']['text'], o), x=st['body']['x'], vars=['$1', '$2'])
+            elif op in ('take', 'skip'):
+                st['k'] = r.choice([0, 1, 1, 2, 2, 3])
+                if r.random() < 0.25:
+                    self.g.n += 1
+                    st['id'] = self.g.n
+            elif op == 'enumerate':
+                if var != '$' or not allow_second:          # secondary pipelines deliver integers
+                    st = dict(op='memorize')
+                else:
+                    var = '$[1]'
+            elif op == 'zip':
+                if var != '$':
+                    st = dict(op='memorize')
+                else:
+                    st['other'] = self.pipe(r.choice([0, 1, 1, 2]), allow_second=False)
+                    var = r.choice(['$[0]', '$[1]'])
+            elif op == 'concat':
+                if var != '$':
+                    st = dict(op='memorize')
+                else:
+                    st['other'] = self.pipe(r.choice([0, 1, 1, 2]), allow_second=False)
+            elif op == 'join':
+                if var != '$':
+                    st = dict(op='memorize')
+                else:
+                    st['other'] = self.pipe(r.choice([0, 1, 1, 2]), allow_second=False)
+                    st['pred'] = self.body('B', r.choice(['$1', '$2']), two=True)
+                    st['sel'] = self.body('I', r.choice(['$1', '$2']), two=True)
+            p['stages'].append(st)
+        return p
+
+
+def src_text(src):
+    if src['ids'] is None:
+        return '[%s]' % ', '.join(str(v) for v in src['vals'])
+    return '[%s]' % ', '.join('tick(%d, %d)' % (i, v) for i, v in zip(src['ids'], src['vals']))
+
+
+def pipe_text(p):
+    t = src_text(p['src'])
+    for st in p['stages']:
+        op = st['op']
+        b = lambda k='body': st[k]['text']
+        if op in ('select', 'where', 'takeWhile', 'skipWhile', 'selectMany', 'distinct', 'any', 'all', 'indexWhere',
+                  'lastIndexWhere', 'accumulate', 'aggregate', 'groupBy', 'orderBy'):
+            t = '%s.%s(%s)' % (t, op, b())
+        elif op == 'toDict':
+            t = '%s.toDict(%s, %s)' % (t, b(), b('body2'))
+        elif op in ('take', 'skip'):
+            t = '%s.%s(%s)' % (t, op, 'tick(%d, %d)' % (st['id'], st['k']) if st.get('id') else st['k'])
+        elif op in ('memorize', 'enumerate', 'first', 'len'):
+            t = '%s.%s()' % (t, op)
+        elif op == 'anyNoPred':
+            t = '%s.any()' % t
+        elif op in ('zip', 'concat'):
+            t = '%s.%s(%s)' % (t, op, pipe_text(st['other']))
+        elif op == 'join':
+            t = '%s.join(%s, %s, %s)' % (t, pipe_text(st['other']), b('pred'), b('sel'))
+        else:
+            raise ValueError(op)
+    return t
+
+
+class Memo:
+    """a lazy collection gone through once and remembered (join's second collection)"""
+    def __init__(self, it):
+        self.it, self.buf = it, []
+
+    def __iter__(self):
+        i = 0
+        while True:
+            if i == len(self.buf):
+                try:
+                    self.buf.append(next(self.it))
+                except StopIteration:
+                    return
+            yield self.buf[i]
+            i += 1
+
+
+class RefEval:
+    """the reference evaluation order, as lazy Python: arguments that are not lambdas are evaluated when the expression
+    is built, receiver first, left to right; a lambda is applied once to each element its operator consumes, when
+    it consumes it; an operator consumes an element only when a result that needs it is asked for"""
+    def __init__(self, ctx):
+        self.ctx, self.log = ctx, []
+
+    def apply(self, body, *args):
+        env = dict(zip(body['vars'], args))
+        self.log += py_trace(inst(body['x'], lambda fl: flagval(fl, self.ctx, env)))
+        return freeze(ev(body['text'], self.ctx, env))
+
+    def build(self, p):
+        if p['src']['ids'] is not None:
+            self.log += p['src']['ids']
+        o = iter(tuple(p['src']['vals']))
+        for st in p['stages']:
+            o = self.stage(o, st)
+        return o
+
+    def run(self, p):
+        o = self.build(p)
+        return freeze(list(o)) if hasattr(o, '__next__') else o
+
+    def stage(self, up, st):
+        op, ap = st['op'], self.apply
+        b = st.get('body')
+        if op == 'select':
+            return (ap(b, v) for v in up)
+        if op == 'where':
+            return (v for v in up if ap(b, v))
+        if op == 'takeWhile':
+            return itertools.takewhile(lambda v: ap(b, v), up)
+        if op == 'skipWhile':
+            return itertools.dropwhile(lambda v: ap(b, v), up)
+        if op == 'selectMany':
+            def many():
+                for v in up:
+                    r = ap(b, v)
+                    if isinstance(r, tuple):
+                        yield from r
+                    else:
+                        yield r
+            return many()
+        if op == 'distinct':
+            def dist():
+                seen = set()
+                for v in up:
+                    k = ap(b, v)
+                    if k not in seen:
+                        seen.add(k)
+                        yield v
+            return dist()
+        if op == 'accumulate':
+            def acc():
+                first = True
+                for v in up:
+                    a = v if first else ap(b, a, v)
+                    first = False
+                    yield a
+                if first:
+                    raise Bad('accumulate of nothing (TypeError, documented)')
+            return acc()
+        if op in ('take', 'skip'):
+            if st.get('id'):
+                self.log.append(st['id'])
+            return itertools.islice(up, st['k']) if op == 'take' else itertools.islice(up, st['k'], None)
+        if op == 'memorize':
+            return iter(Memo(up))
+        if op == 'enumerate':
+            return ((i, v) for i, v in enumerate(up))
+        if op == 'zip':
+            return zip(up, self.build(st['other']))
+        if op == 'concat':
+            return itertools.chain(up, self.build(st['other']))
+        if op == 'join':
+            inner = Memo(self.build(st['other']))
+            return (ap(st['sel'], x, y) for x in up for y in inner if ap(st['pred'], x, y))
+        # ---- consumers
+        if op == 'any':
+            return any(ap(b, v) for v in up)
+        if op == 'anyNoPred':
+            for _ in up:
+                return True
+            return False
+        if op == 'all':
+            return all(ap(b, v) for v in up)
+        if op == 'indexWhere':
+            for i, v in enumerate(up):
+                if ap(b, v):
+                    return i
+            return -1
+        if op == 'lastIndexWhere':
+            r = -1
+            for i, v in enumerate(up):
+                if ap(b, v):
+                    r = i
+            return r
+        if op == 'first':
+            for v in up:
+                return v
+            raise Bad('first() of nothing')
+        if op == 'len':
+            return sum(1 for _ in up)
+        if op == 'toDict':
+            d = {}
+            for v in up:
+                k = ap(b, v)
+                d[k] = ap(st['body2'], v)
+            return d
+        if op == 'aggregate':
+            try:
+                return functools.reduce(lambda a, v: ap(b, a, v), up)
+            except TypeError:
+                raise Bad('aggregate of nothing')
+        if op == 'groupBy':
+            g = {}
+            for v in up:
+                g.setdefault(ap(b, v), []).append(v)
+            return tuple((k, tuple(vs)) for k, vs in g.items())
+        raise ValueError(op)
+
+
+LEAF = dict(k='leaf')
+
+
+class Describe:
+    """the table for the model: per stage and per element that WOULD reach it if everything were consumed, the lambda
+    body as evaluated on that element and the fact the operator's reaction depends on (eager, no laziness in here)"""
+    def __init__(self, ctx):
+        self.ctx = ctx
+
+    def x(self, body, *args):
+        env = dict(zip(body['vars'], args))
+        return inst(body['x'], lambda fl: flagval(fl, self.ctx, env))
+
+    def val(self, body, *args):
+        return freeze(ev(body['text'], self.ctx, dict(zip(body['vars'], args))))
+
+    def pipe(self, p):
+        """-> (json for the driver, all elements of the pipeline)"""
+        src = p['src']
+        ids = src['ids'] or []
+        j = dict(src=dict(n=len(src['vals']), x=dict(k='eager', ks=[dict(k='tick', id=i, a=LEAF) for i in ids])), stages=[])
+        elems = list(src['vals'])
+        for st in p['stages']:
+            sj, elems = self.stage(st, elems)
+            j['stages'].append(sj)
+        return j, elems
+
+    def stage(self, st, elems):
+        op = st['op']
+        b = st.get('body')
+        xs = [self.x(b, v) for v in elems] if b is not None and b['vars'] == ['$'] else []
+        vs = [self.val(b, v) for v in elems] if b is not None and b['vars'] == ['$'] else []
+        if op == 'select':
+            return dict(op='select', bodies=xs), vs
+        if op == 'where':
+            return dict(op='filter', bodies=xs, flags=[bool(v) for v in vs]), [e for e, v in zip(elems, vs) if v]
+        if op == 'takeWhile':
+            return dict(op='takeWhile', bodies=xs, flags=[bool(v) for v in vs]), [
+                e for e, _ in itertools.takewhile(lambda t: t[1], zip(elems, vs))]
+        if op == 'skipWhile':
+            return dict(op='skipWhile', bodies=xs, flags=[bool(v) for v in vs]), [
+                e for e, _ in itertools.dropwhile(lambda t: t[1], zip(elems, vs))]
+        if op == 'selectMany':
+            out = []
+            for v in vs:
+                out += list(v) if isinstance(v, tuple) else [v]
+            return dict(op='selectMany', bodies=xs, counts=[len(v) if isinstance(v, tuple) else 1 for v in vs]), out
+        if op == 'distinct':
+            seen, keep = set(), []
+            for v in vs:
+                keep.append(v not in seen)
+                seen.add(v)
+            return dict(op='filter', bodies=xs, flags=keep), [e for e, k in zip(elems, keep) if k]
+        if op in ('accumulate', 'aggregate'):
+            bodies, out = [], []
+            for i, v in enumerate(elems):
+                if i == 0:
+                    bodies.append(LEAF)
+                    out.append(v)
+                else:
+                    bodies.append(self.x(b, out[-1], v))
+                    out.append(self.val(b, out[-1], v))
+            if op == 'accumulate':
+                return dict(op='accumulate', bodies=bodies, seeded=False), out
+            return dict(op='each', bodies=bodies, nout=1), out[-1:]
+        if op in ('take', 'skip'):
+            eager = [dict(k='tick', id=st['id'], a=LEAF)] if st.get('id') else []
+            return dict(op=op, k=st['k'], eager=eager), (elems[:st['k']] if op == 'take' else elems[st['k']:])
+        if op == 'memorize':
+            return dict(op='pass'), elems
+        if op == 'enumerate':
+            return dict(op='pass'), [(i, v) for i, v in enumerate(elems)]
+        if op in ('zip', 'concat'):
+            oj, oel = self.pipe(st['other'])
+            return dict(op=op, other=oj), ([(a, c) for a, c in zip(elems, oel)] if op == 'zip' else elems + oel)
+        if op == 'join':
+            oj, oel = self.pipe(st['other'])
+            preds, flags, sels, out = [], [], [], []
+            for x in elems:
+                pr, fr, sr = [], [], []
+                for y in oel:
+                    pr.append(self.x(st['pred'], x, y))
+                    f = bool(self.val(st['pred'], x, y))
+                    fr.append(f)
+                    sr.append(self.x(st['sel'], x, y) if f else LEAF)
+                    if f:
+                        out.append(self.val(st['sel'], x, y))
+                preds.append(pr)
+                flags.append(fr)
+                sels.append(sr)
+            return dict(op='join', other=oj, preds=preds, pflags=flags, sels=sels), out
+        # ---- consumers: one result
+        if op in ('any', 'indexWhere'):
+            return dict(op='search', bodies=xs, flags=[bool(v) for v in vs]), [None]
+        if op == 'all':
+            return dict(op='search', bodies=xs, flags=[not v for v in vs]), [None]
+        if op in ('anyNoPred', 'first'):
+            return dict(op='search', bodies=[], flags=[True] * len(elems)), [None]
+        if op in ('lastIndexWhere', 'groupBy'):
+            return dict(op='each', bodies=xs, nout=1), [None]
+        if op == 'len':
+            return dict(op='each', bodies=[], nout=1), [None]
+        if op == 'toDict':
+            return dict(op='each', nout=1, bodies=[dict(k='eager', ks=[x1, self.x(st['body2'], v)])
+                                                    for x1, v in zip(xs, elems)]), [None]
+        raise ValueError(op)
+
+
+def real_pipe(text, ctx):
+    del LOG[:]
+    try:
+        v = ENGINE(text).evaluate(context=ctx)
+    except Exception as e:
+        return None, None, type(e).__name__
+    finally:
+        log = list(LOG)
+        del LOG[:]
+    return freeze(v), log, None
+
+
+def pipe_case(p, ctx):
+    """-> dict(text, ref_log, ref_value, table) or raises Bad (a lambda raises on some element, first() of nothing..)"""
+    text = pipe_text(p)
+    ref = RefEval(ctx)
+    value = ref.run(p)
+    table, _ = Describe(ctx).pipe(p)
+    return dict(text=text, ref_log=ref.log, ref_value=value, table=table)
+
+
+def canon_value(v):
+    if isinstance(v, dict):
+        return tuple(sorted((repr(k), repr(canon_value(x))) for k, x in v.items()))
+    if isinstance(v, (list, tuple)):
+        return tuple(canon_value(x) for x in v)
+    return v
+
+
+def pipe_verdict(p, ctx, model_log, c=None):
+    """-> (failure or None, info); failure = (kind, key, what)"""
+    c = c or pipe_case(p, ctx)
+    value, log, err = real_pipe(c['text'], ctx)
+    info = dict(c, real_log=log, real_err=err)
+    ops = '.'.join(st['op'] for st in p['stages'])
+    if err is not None:
+        return ('oracle', 'per-element-raises', '%s: raises %s; the reference gives %r with log %r' % (
+            c['text'], err, c['ref_value'], c['ref_log'])), info
+    if log != c['ref_log']:
+        return ('oracle', 'per-element', '%s: real log %r; each lambda once per element consumed, in order, gives %r' % (
+            c['text'], log, c['ref_log'])), info
+    if canon_value(value) != canon_value(c['ref_value']):
+        return ('mismatch', 'per-element-value', '%s: real value %r, transcription %r (the harness computes the wrong '
+                'elements)' % (c['text'], value, c['ref_value'])), info
+    if model_log is not None and model_log != c['ref_log']:
+        return ('mismatch', 'per-element-model', '%s (%s): Yaql.PerElem log %r, transcription %r' % (
+            c['text'], ops, model_log, c['ref_log'])), info
+    return None, info
+
+
+def ask_pipes(drv, tables):
+    if drv is None:
+        return [None] * len(tables)
+    out = []
+    for i in range(0, len(tables), 100):
+        out += drv.ask(dict(p='C11', xs=[], pipes=tables[i:i + 100]))['plogs']
+    return out
+
+
+def pipe_fails(p, ctx, drv, kind):
+    try:
+        c = pipe_case(p, ctx)
+        f, _ = pipe_verdict(p, ctx, ask_pipes(drv, [c['table']])[0])
+    except Exception:
+        return None
+    return f if f and f[0] == kind else None
+
+
+def sub_pipes(p):
+    """smaller variants of a pipeline spec"""
+    n = len(p['stages'])
+    for i in range(n - 1, -1, -1):
+        yield dict(p, stages=p['stages'][:i] + p['stages'][i + 1:])
+    src = p['src']
+    for i in range(len(src['vals'])):
+        yield dict(p, src=dict(vals=src['vals'][:i] + src['vals'][i + 1:],
+                               ids=None if src['ids'] is None else src['ids'][:i] + src['ids'][i + 1:]))
+    if src['ids'] is not None:
+        yield dict(p, src=dict(vals=src['vals'], ids=None))
+    for i, st in enumerate(p['stages']):
+        if st.get('other'):
+            for q in sub_pipes(st['other']):
+                yield dict(p, stages=p['stages'][:i] + [dict(st, other=q)] + p['stages'][i + 1:])
+        if st.get('id'):
+            yield dict(p, stages=p['stages'][:i] + [{k: v for k, v in st.items() if k != 'id'}] + p['stages'][i + 1:])
+
+
+PRED_OPS = ('where', 'takeWhile', 'skipWhile', 'any', 'all', 'indexWhere', 'lastIndexWhere')
+
+
+def simple_bodies(st, key, n):
+    """plain one-probe lambdas that could stand in for the body `key` of stage `st`"""
+    two = st[key]['vars'] != ['$']
+    if key == 'pred' or key == 'body' and st['op'] in PRED_OPS:
+        texts = ['true', 'false'] + (['$1 < $2', '$2 > 15'] if two else ['$ > 2', '$ mod 2 = 0'])
+    else:
+        texts = ['$1 + $2'] if two else ['$']
+    for t in texts:
+        yield dict(text='tick(%d, %s)' % (n, t), x=dict(k='tick', id=n, a=dict(k='leaf')), vars=st[key]['vars'])
+
+
+def sub_bodies(p, counter):
+    for i, st in enumerate(p['stages']):
+        for key in ('body', 'body2', 'pred', 'sel'):
+            if key in st and not st[key]['text'].startswith('tick(9'):
+                counter[0] += 1
+                for b in simple_bodies(st, key, 900 + counter[0]):
+                    yield dict(p, stages=p['stages'][:i] + [dict(st, **{key: b})] + p['stages'][i + 1:])
+        if st.get('other'):
+            for q in sub_bodies(st['other'], counter):
+                yield dict(p, stages=p['stages'][:i] + [dict(st, other=q)] + p['stages'][i + 1:])
+
+
+def shrink_pipe(p, ctx, drv, kind):
+    p = shrink_pipe_shape(p, ctx, drv, kind)
+    counter = [0]
+    changed = True
+    while changed:
+        changed = False
+        for q in sub_bodies(p, counter):
+            if pipe_fails(q, ctx, drv, kind):
+                p, changed = q, True
+                break
+    return shrink_pipe_shape(p, ctx, drv, kind)
+
+
+def shrink_pipe_shape(p, ctx, drv, kind):
+    changed = True
+    while changed:
+        changed = False
+        for q in sub_pipes(p):
+            if pipe_fails(q, ctx, drv, kind):
+                p, changed = q, True
+                break
+    return p
+
+
+def orderby_verdict(p, ctx):
+    """orderBy: the key selector is needed once per element (none for fewer than two elements); the order in which the
+    keys are taken is left open, so the oracle is a bound: no probe of the selector fires more often than once per
+    element it is evaluated on"""
+    text = pipe_text(p)
+    _, log, err = real_pipe(text, ctx)
+    if err is not None:
+        raise Bad(err)
+    d = Describe(ctx)
+    body = p['stages'][-1]['body']
+    elems = RefEval(ctx).run(dict(p, stages=p['stages'][:-1]))
+    bound = {}
+    for v in elems:
+        for i in py_trace(d.x(body, v)):
+            bound[i] = bound.get(i, 0) + 1
+    own = [i for i in log if i in bound]
+    over = sorted(i for i in bound if own.count(i) > bound[i])
+    if over:
+        return ('oracle', 'orderBy-key-reevaluated',
+                '%s: %d elements, but the probes %r inside the key selector fired %r times (log %r): the selector runs '
+                'more than once per element' % (text, len(elems), over, [own.count(i) for i in over], log)), dict(text=text)
+    return None, dict(text=text)
+
+
 HAND = [
     ('(tick(1, false) and tick(2, true))', dict(k='and', t=False, a=dict(k='tick', id=1, a=dict(k='leaf')),
                                                 b=dict(k='tick', id=2, a=dict(k='leaf')))),
@@ -294,22 +945,95 @@ HAND = [
 ]
 
 
+def run_pipes(env, res, rng0, ctxs, hist, rp):
+    """the per-element part: pipelines of streaming operators with probes inside their lambdas"""
+    drv, tier = env['driver'], env['tier']
+    rng = common.make_rng(env['seed'], 'C11-pipes')
+    ctx = ctxs[3]
+    todo = []            # (spec, precomputed case)
+    if rp is not None:
+        if not rp.get('pipe'):
+            return
+        specs_ = [rp['pipe']]
+    else:
+        specs_ = None
+    n = 2600 if tier == 'quick' else 25000
+    n_order = 150 if tier == 'quick' else 2000
+    tries = 0
+    while (specs_ is None and len(todo) < n and tries < 4 * n) or (specs_ and tries < len(specs_)):
+        tries += 1
+        if specs_:
+            p = specs_[tries - 1]
+        else:
+            pg = PipeGen(rng, ctx, 2 if tier == 'quick' else 3)
+            p = pg.pipe(rng.choice([1, 1, 2, 2, 3, 4]), terminal_ok=True)
+        if p['stages'] and p['stages'][-1]['op'] == 'orderBy':
+            todo.append((p, None))
+            continue
+        try:
+            c = pipe_case(p, ctx)
+        except Bad:
+            hist['pipe-regenerated'] = hist.get('pipe-regenerated', 0) + 1
+            continue
+        todo.append((p, c))
+    if specs_ is None:
+        for _ in range(n_order):
+            pg = PipeGen(rng, ctx, 1)
+            p = pg.pipe(rng.choice([0, 0, 1]), allow_second=False)
+            p['stages'].append(dict(op='orderBy', body=pg.body('I', '$')))
+            todo.append((p, None))
+    mlogs = iter(ask_pipes(drv, [c['table'] for _, c in todo if c is not None]))
+    for p, c in todo:
+        if c is None:
+            try:
+                f, info = orderby_verdict(p, ctx)
+            except Bad:
+                continue
+            hist['pipe-op:orderBy'] = hist.get('pipe-op:orderBy', 0) + 1
+            res.case(info['text'], True)
+            if f and len([x for x in res.failures if x.key == f[1]]) < 2:
+                res.fail(f[0], f[1], f[2], dict(pipe=p, text=info['text']))
+            continue
+        ml = next(mlogs)
+        f, info = pipe_verdict(p, ctx, ml, c)
+        partial = any(st['op'] in ('take', 'any', 'all', 'indexWhere', 'first', 'anyNoPred', 'takeWhile', 'zip')
+                      for st in p['stages'])
+        res.case(c['text'], len(c['ref_log']) >= 2, sample=c['text'] if len(res.samples) < 6 and len(c['ref_log']) > 3 else None)
+        if ml is not None:
+            res.traces += 1
+        for st in p['stages']:
+            hist['pipe-op:' + st['op']] = hist.get('pipe-op:' + st['op'], 0) + 1
+            if st.get('other'):
+                hist['pipe-second-arg-lazy'] = hist.get('pipe-second-arg-lazy', 0) + bool(st['other']['stages'])
+        hist['pipe-partial' if partial else 'pipe-full'] = hist.get('pipe-partial' if partial else 'pipe-full', 0) + 1
+        hist['pipe-log-len:%d' % min(len(c['ref_log']) // 4 * 4, 24)] = hist.get('pipe-log-len:%d' % min(len(c['ref_log']) // 4 * 4, 24), 0) + 1
+        if f:
+            small = shrink_pipe(p, ctx, drv, f[0])
+            g = pipe_fails(small, ctx, drv, f[0]) or f
+            res.fail(g[0], g[1], g[2], dict(pipe=small, text=pipe_text(small)))
+            if len([x for x in res.failures if x.key.startswith('per-element')]) >= 6:
+                break
+
+
 def run(env, res):
     drv = env['driver']
     tier = env['tier']
     rng = common.make_rng(env['seed'], 'C11')
+    rp = None
     n = 15000 if tier == 'quick' else 150000
     max_depth = 3 if tier == 'quick' else 4
     res.rule = ('typed random expressions of depth <= %d with a numbered probe in every operand position (operators, list/map '
                 'literals, indexer, method and keyword calls, library functions, every short-circuit function, a user '
                 'function with 1-6 overloads); distinct = distinct expression text; non-trivial = at least 3 probes and one '
-                'lazy operator or a call of the overloaded function' % max_depth)
+                'lazy operator or a call of the overloaded function. Plus pipelines of 1-4 streaming operators over a list '
+                'literal with such expressions as per-element lambdas, lazy pipelines as second collection of join/zip/concat, '
+                'consumed completely or partly (non-trivial = at least 2 probe events)' % max_depth)
     ctxs = {k: make_context(k) for k in range(1, 7)}
     hist = {}
     cases = []
     if env['replay']:
         rp = json.load(open(env['replay']))['case']
-        cases = [(rp['text'], rp['x'], rp.get('overloads', 3))]
+        cases = [(rp['text'], rp['x'], rp.get('overloads', 3))] if not rp.get('pipe') else []
     else:
         for text, x in HAND:
             for k in (1, 6):
@@ -332,6 +1056,9 @@ def run(env, res):
         model = []
         for i in range(0, len(cases), 500):
             model += drv.ask(dict(p='C11', xs=[c[1] for c in cases[i:i + 500]]))['traces']
+    if env['replay'] and rp.get('pipe'):
+        cases = []
+    run_pipes(env, res, rng, ctxs, hist, rp if env['replay'] else None)
     for ci, (text, x, k) in enumerate(cases):
         exp = py_trace(x)
         lazy = any(s in text for s in (' and ', ' or ', '?.', 'switch', 'selectCase', 'selectAllCases', 'examine',
@@ -359,7 +1086,7 @@ def run(env, res):
             res.traces += 1
             if model[ci] != exp:
                 res.fail('mismatch', 'model', '%s: Lean trace %r, transcription %r' % (text, model[ci], exp), case)
-        if len(res.failures) >= 10:
+        if len(res.failures) >= 12:
             break
     res.extra['histogram'] = hist
     return res
@@ -369,9 +1096,16 @@ LEVEL_TEXT = ('Lean 4: the evaluation log of the resolver model is one left-to-r
               'arguments, positional then keyword, under the common laziness signature (eager_once_in_order), and does not '
               'depend on the number of candidates (log_independent_of_candidates); over the evaluation-order model: '
               'eager_fragment_trace and the short_circuit_* theorems; C11Gen.lazy_params / lazy_functions re-prove on the '
-              'regenerated registry that the lazy parameters are where the model assumes. Tie: generated probe expressions '
-              'evaluated by the real engine, log compared with the predicted trace; C05/C06 tie the resolver model.')
+              'regenerated registry that the lazy parameters are where the model assumes; over the per-element model '
+              '(Yaql.PerElem: streams of probe deltas, stages with reactions): conservation of the log for every stage '
+              '(runOn_log), per_element_total / per_element (an operator that applies its lambda fires, for each input element '
+              'consumed and in input order, the probes of pulling it and of the lambda body on it, once - for the whole result '
+              'and for its first k+1 results; nothing of the elements behind), take_log (a consumer of k results consumes '
+              'exactly k), instances for select/where/distinct/takeWhile/skipWhile/selectMany/any/all/indexWhere/first/'
+              'accumulate/zip/concat/join (join_pass_events, join_empty_outer). Tie: generated probe expressions and '
+              'pipelines evaluated by the real engine, log compared with the predicted trace; C05/C06 tie the resolver model.')
 LEVEL_NOTE = ('trusted: Lean kernel; Model/EvalOrder.lean, Resolve.lean; the generator\'s bookkeeping (operand truthiness '
-              'taken from separate real evaluations). per-element lambdas are left to C14.')
+              'taken from separate real evaluations); Model/PerElem.lean and the harness\'s eager table of per-element facts; '
+              'the lazy transcription RefEval as the reference for the per-element clause.')
 TECHNIQUE = 'Lean 4 proof + generated registry facts + differential trace comparison with numbered probes'
 DESIGN_REF = 'DESIGN.md section 5, C11'
